@@ -14,7 +14,8 @@ parameter values.  Two layers:
   matrix expressions (`ofMat A` = list-of-rows form of `A`).
 
 `NaiveLinear` stores `W` itself; `torch.inverse` / `slogdet` / `lu_solve` enter by specification (`naive_roundtrip`
-takes `Winv * W = 1` as hypothesis; the executable Gauss–Jordan elimination used in the correspondence is not verified).
+takes `Winv * W = 1` as hypothesis); the executable Gauss–Jordan elimination the correspondence runs is verified in
+`Properties/C11G.lean` (it returns `W⁻¹` and `log |det W|` for every non-singular `W`, and the error exactly for singular ones).
 
 History (not about the current tree): before the `fix:` commit 5855eed the constructor rows were
 `tile(eye(num // 2, features))`, for which `householder_init_rows` is false — `(features, num) = (2, 6)` gives a
